@@ -109,6 +109,9 @@ func (i *itemsValidator) Validate(index int, data interface{}) *Result {
 		}
 
 		validator.SetPath(path)
+		if i.Options.recycleValidators {
+			i.validators[idx] = nil // the child redeems itself, even when it panics: never redeem it twice
+		}
 		err := validator.Validate(data)
 		if i.Options.recycleValidators {
 			i.validators[idx] = nil // prevents further (unsafe) usage
@@ -393,6 +396,9 @@ func (p *HeaderValidator) Validate(data interface{}) *Result {
 			continue
 		}
 
+		if p.Options.recycleValidators {
+			p.validators[idx] = nil // the child redeems itself, even when it panics: never redeem it twice
+		}
 		err := validator.Validate(data)
 		if p.Options.recycleValidators {
 			p.validators[idx] = nil // prevents further (unsafe) usage
@@ -585,6 +591,9 @@ func (p *ParamValidator) Validate(data interface{}) *Result {
 			continue
 		}
 
+		if p.Options.recycleValidators {
+			p.validators[idx] = nil // the child redeems itself, even when it panics: never redeem it twice
+		}
 		err := validator.Validate(data)
 		if p.Options.recycleValidators {
 			p.validators[idx] = nil // prevents further (unsafe) usage
